@@ -293,7 +293,7 @@ class Runner:
         if rng.random() < 0.5 and self.tier == "quick":
             return
         for _ in range(2 if self.tier == "quick" else 8):
-            kind = rng.choice(["enospc", "eio_write", "crash", "torn_write"])
+            kind = rng.choice(["enospc", "eio_write", "crash", "torn_write", "short_write"])
             at = rng.randrange(nevents)
             self.wipe_out()
             ident = self.plant(S, kinds, C)
